@@ -156,6 +156,10 @@ def make_objects(M, desc, param_override=None, node_names=None):
         n: callform((node_cls if (node_cls is M.Node or FORMS["rng"].random() < 0.5) else M.Node), ORDER["named"],
                     {"name": (node_names or {}).get(n, n)}) for n in desc["nodes"]
     }
+    for n in desc.get("falsy_nodes") or ():  # user-defined nodes that happen to be falsy, where the description asks for them
+        from vf import userkinds as UK
+
+        nodes[n] = UK.Junction(name=(node_names or {}).get(n, n))
     for n in sorted(set(desc.get("node_off") or {}) | set(desc.get("node_block") or {})):  # user-defined node kind with its own node rules
         from vf import userkinds as UK
 
